@@ -263,9 +263,9 @@ def main(argv=None):
     rep = R.Report(PROP, tier, seed)
     rng = random.Random(seed)
     if tier == "quick":
-        n_fork, n_ite, nodes, nrand = 5, 17, 6, 20
+        n_fork, n_ite, nodes, nrand = 5, 24, 7, 60
     else:
-        n_fork, n_ite, nodes, nrand = 6, 33, 7, 200
+        n_fork, n_ite, nodes, nrand = 6, 40, 8, 400
     items = [{"kind": "rmq", "n": n, "ite": False} for n in range(1, n_fork + 1)]
     items += [{"kind": "rmq", "n": n, "ite": True} for n in range(1, n_ite + 1)]
     items += [{"kind": "ilog2"}]
